@@ -383,7 +383,11 @@ def run(facts, rep, tier):
                        "resolving and a second application starts from the same text.")
     from . import c15
     c15.rule_r1(facts, _Conv(rep), "C10-R5")
-
+    rep.rule("C10-R7", "= C01-R7 / C01-R8: the converted note is re-rendered by the printers; no lossy adapter decides blank lines between an item's blocks and no unaudited "
+             "trimming touches content lines (the inverse action starts from that text).")
+    from . import c01 as _c01
+    _c01.rule_r7(facts, rep, rid="C10-R7")
+    _c01.rule_r8(facts, rep, rid="C10-R7b")
 
 class _Conv:
     """Forwards only the instances located in the list/section conversion actions."""
